@@ -419,7 +419,55 @@ func localize(root ast.Element, print printFn) (label string, kind string) {
 		}
 		cs = append(cs, l)
 	}
-	return elemKind(best) + "[" + strings.Join(cs, ",") + "]", bestKind
+	// Keep signatures of different defects apart: when the failing element
+	// contains one of the node kinds whose own printing is known to need
+	// parentheses (prefix forms that extend to the right, negative literals,
+	// references, function expressions), name them; otherwise the failure is
+	// about the operators themselves, so name the operators.
+	culprits := map[string]struct{}{}
+	var scan func(e ast.Element, depth int)
+	scan = func(e ast.Element, depth int) {
+		if depth > 4 {
+			return
+		}
+		switch x := e.(type) {
+		case *ast.DestroyExpression, *ast.AttachExpression, *ast.ReferenceExpression, *ast.FunctionExpression:
+			culprits[elemKind(e)] = struct{}{}
+		case *ast.UnaryExpression:
+			if x.Operation.Symbol() == "<-" {
+				culprits["UnaryExpression(<-)"] = struct{}{}
+			}
+		case *ast.IntegerExpression, *ast.FixedPointExpression:
+			if strings.HasSuffix(elemLabel(e), "(negative)") {
+				culprits["negative-literal"] = struct{}{}
+			}
+		}
+		for _, c := range children(e) {
+			scan(c, depth+1)
+		}
+	}
+	for _, c := range kids {
+		scan(c, 1)
+	}
+	if len(culprits) > 0 {
+		var names []string
+		for k := range culprits {
+			names = append(names, k)
+		}
+		sort.Strings(names)
+		return elemKind(best) + "[" + strings.Join(cs, ",") + "]+has(" + strings.Join(names, ",") + ")", bestKind
+	}
+	opLabel := func(e ast.Element) string {
+		if b, ok := e.(*ast.BinaryExpression); ok {
+			return elemKind(e) + "(" + b.Operation.Symbol() + ")"
+		}
+		return elemLabel(e)
+	}
+	cs = cs[:0]
+	for _, c := range kids {
+		cs = append(cs, opLabel(c))
+	}
+	return opLabel(best) + "[" + strings.Join(cs, ",") + "]", bestKind
 }
 
 func canonicalPrint(e ast.Element) (s string, panicked bool, ok bool) {
